@@ -2497,11 +2497,11 @@ def _contact_sort(maxmatch: int):
     sensor_contact_nmatch_in: wp.array2d[int],
     sensor_contact_matchid_in: wp.array3d[int],
     sensor_contact_criteria_in: wp.array3d[float],
+    sensor_contact_direction_in: wp.array3d[float],
     # Out:
     sensor_contact_matchid_out: wp.array3d[int],
+    sensor_contact_direction_out: wp.array3d[float],
   ):
-    worldid, contactsensorid = wp.tid()
-
     worldid, contactsensorid = wp.tid()
     sensorid = sensor_contact_adr[contactsensorid]
 
@@ -2519,6 +2519,12 @@ def _contact_sort(maxmatch: int):
     matchid_tile = wp.tile_load(sensor_contact_matchid_in[worldid, contactsensorid], shape=maxmatch)
     wp.tile_sort(criteria_tile, matchid_tile)
     wp.tile_store(sensor_contact_matchid_out[worldid, contactsensorid], matchid_tile)
+
+    # the direction (sign) of each match moves with it: same keys, same permutation
+    criteria_tile = wp.tile_load(sensor_contact_criteria_in[worldid, contactsensorid], shape=maxmatch)
+    direction_tile = wp.tile_load(sensor_contact_direction_in[worldid, contactsensorid], shape=maxmatch)
+    wp.tile_sort(criteria_tile, direction_tile)
+    wp.tile_store(sensor_contact_direction_out[worldid, contactsensorid], direction_tile)
 
   return contact_sort
 
@@ -2682,8 +2688,15 @@ def sensor_acc(m: Model, d: Data):
     wp.launch_tiled(
       _contact_sort(m.opt.contact_sensor_maxmatch),
       dim=(d.nworld, m.sensor_contact_adr.size),
-      inputs=[m.sensor_intprm, m.sensor_contact_adr, sensor_contact_nmatch, sensor_contact_matchid, sensor_contact_criteria],
-      outputs=[sensor_contact_matchid],
+      inputs=[
+        m.sensor_intprm,
+        m.sensor_contact_adr,
+        sensor_contact_nmatch,
+        sensor_contact_matchid,
+        sensor_contact_criteria,
+        sensor_contact_direction,
+      ],
+      outputs=[sensor_contact_matchid, sensor_contact_direction],
       block_dim=m.block_dim.contact_sort,
     )
 
